@@ -78,6 +78,34 @@ def gen_params(rnd, nblocs=None, max_slate=3, zero_support=None, extremes=True):
     return {"slate_to_candidates": s2c, "pref_intervals_by_bloc": piv, "cohesion_parameters": coh, "bloc_voter_prop": props}
 
 
+def decoy(params):
+    """a second, equally valid parameter set with the SAME bloc, slate and candidate names and other numbers (supports
+    reversed inside each interval, cohesion rows and bloc proportions rotated): constructed between the construction and
+    the use of the generator under test, it must not influence it"""
+    def rot(d):
+        ks, vs = list(d), list(d.values())
+        vs = vs[1:] + vs[:1] if len(set(vs)) > 1 else vs
+        return dict(zip(ks, vs))
+    p2 = dict(params)
+    p2["slate_to_candidates"] = {b: list(c) for b, c in params["slate_to_candidates"].items()}
+    p2["pref_intervals_by_bloc"] = {b: {s: rot(d) if len(set(d.values())) > 1 else {c: v * (i + 2) for i, (c, v) in enumerate(d.items())}
+                                        for s, d in per.items()} for b, per in params["pref_intervals_by_bloc"].items()}
+    p2["cohesion_parameters"] = {b: rot(d) for b, d in params["cohesion_parameters"].items()}
+    p2["bloc_voter_prop"] = rot(params["bloc_voter_prop"])
+    return p2
+
+
+def make_decoy(model, params, extra=None, use=True):
+    """build (and optionally use) a decoy generator; never raises"""
+    try:
+        g = make(model, decoy(params), extra)
+        if use:
+            g.generate_profile(2)
+        return True
+    except Exception:  # noqa
+        return False
+
+
 def all_cands(params):
     return [c for cs in params["slate_to_candidates"].values() for c in cs]
 
